@@ -134,6 +134,9 @@ func VerifC01Session() {
 	act, chAct, _ := verifSession()
 	act.backend = obs.backend
 	ctx := context.Background()
+	// the observer may have the mailbox open read-only (EXAMINE): its STOREs are then rejected - a rejected command
+	// is still a STORE as far as EXPUNGE responses are concerned
+	readOnly := vsymChoice("examine", 2) == 1
 	for _, s := range []*Session{obs, act} {
 		c := ch
 		if s == act {
@@ -142,7 +145,11 @@ func VerifC01Session() {
 		if err := s.handleCommand(ctx, "l", &command.Login{UserID: "alice", Password: "pw1"}, c); err != nil {
 			panic(err)
 		}
-		if err := s.handleCommand(state.NewStateContext(ctx, s.state), "s", &command.Select{Mailbox: "INBOX"}, c); err != nil {
+		var open command.Payload = &command.Select{Mailbox: "INBOX"}
+		if s == obs && readOnly {
+			open = &command.Examine{Mailbox: "INBOX"}
+		}
+		if err := s.handleCommand(state.NewStateContext(ctx, s.state), "s", open, c); err != nil {
 			panic(err)
 		}
 	}
@@ -223,6 +230,14 @@ func VerifC01Session() {
 			cmd := &command.Store{SeqSet: one(seq), Action: []command.StoreAction{command.StoreActionAddFlags, command.StoreActionRemFlags, command.StoreActionSetFlags}[ai], Flags: []string{flagNames[fi]}, Silent: silent}
 			before := mirror.expunges
 			err := obs.handleCommand(obsCtx, "a", cmd, ch)
+			if readOnly {
+				vsymCover("store-rejected")
+				vsymAssert(err != nil, "STORE in a mailbox opened with EXAMINE is rejected")
+				drain(ch, mirror)
+				vsymAssert(mirror.expunges == before, "no EXPUNGE response while a (rejected) STORE is answered")
+				mirror.probe(obs.state)
+				continue
+			}
 			vsymAssert(err == nil, "STORE on an announced sequence number is answered")
 			drain(ch, mirror)
 			c05(before, true)
@@ -277,6 +292,12 @@ func VerifC01Session() {
 			}
 			before := mirror.expunges
 			err := obs.handleCommand(obsCtx, "a", cmd, ch)
+			if _, isExpunge := cmd.(*command.Expunge); isExpunge && readOnly {
+				vsymAssert(err != nil, "EXPUNGE in a mailbox opened with EXAMINE is rejected")
+				drain(ch, mirror)
+				mirror.probe(obs.state)
+				continue
+			}
 			vsymAssert(err == nil, "EXPUNGE / NOOP / CHECK is answered")
 			drain(ch, mirror)
 			c05(before, false)
